@@ -23,6 +23,7 @@ func init() {
 }
 
 func runC08(c *core.Ctx) {
+	checkNodesPersistedBeforeSizePublished(c, "C08.persist-before-publish")
 	checkStateStoreKeyPrefixes(c)
 	checkNodeStorePositions(c)
 	checkFileOffsetsWide(c)
